@@ -463,10 +463,91 @@ impl Part for ThreadStress {
     }
 }
 
-crate::declare_parts!(Reloader, ThreadStress);
+
+// ------------------------------------------------------------------ real threads: acquirers queued behind a held guard
+
+/// k threads call acquire_env while the calling thread still holds a guard and exactly r reload
+/// requests are pending: whatever the interleaving, the creator runs at most once more per
+/// request made since the environment was built ("without a request the creator function is not
+/// called again"), every acquirer gets an environment younger than the requests, and all of them
+/// get the same one when nothing else was requested. Timing only decides how the threads
+/// interleave, never what is accepted.
+#[derive(Clone, Debug, Serialize, Deserialize)]
+pub struct QueueCase {
+    pub acquirers: u8,
+    pub requests: u8,
+    pub rounds: u8,
+    pub hold_ms: u8,
+}
+
+pub struct QueuedAcquirers;
+
+impl Part for QueuedAcquirers {
+    type Case = QueueCase;
+    const NAME: &'static str = "acquirers_queued_behind_a_guard";
+
+    fn strategy(_tier: Tier) -> BoxedStrategy<QueueCase> {
+        (2u8..5, 0u8..3, 2u8..6, 1u8..6).prop_map(|(acquirers, requests, rounds, hold_ms)| QueueCase { acquirers, requests, rounds, hold_ms }).boxed()
+    }
+
+    fn check(c: &QueueCase) -> Verdict {
+        let creations = Arc::new(AtomicU64::new(0));
+        let cr = creations.clone();
+        let reloader = Arc::new(AutoReloader::new(move |_n: Notifier| {
+            let stamp = cr.fetch_add(1, Ordering::SeqCst) + 1;
+            let mut env = Environment::new();
+            env.add_global("stamp", stamp);
+            Ok(env)
+        }));
+        let stamp_of = |env: &Environment<'static>| env.globals().find(|(k, _)| *k == "stamp").and_then(|(_, v)| u64::try_from(v).ok()).unwrap_or(0);
+        let mut v = Verdict::pass(c.requests > 0);
+        for round in 0..c.rounds {
+            let guard = reloader.acquire_env().unwrap();
+            let held_stamp = stamp_of(&guard);
+            let before = creations.load(Ordering::SeqCst);
+            for _ in 0..c.requests {
+                reloader.notifier().request_reload();
+            }
+            let handles: Vec<_> = (0..c.acquirers)
+                .map(|_| {
+                    let r = reloader.clone();
+                    std::thread::spawn(move || {
+                        let env = r.acquire_env().unwrap();
+                        let stamp = env.globals().find(|(k, _)| *k == "stamp").and_then(|(_, v)| u64::try_from(v).ok()).unwrap_or(0);
+                        drop(env);
+                        stamp
+                    })
+                })
+                .collect();
+            // let the acquirers reach the lock the guard holds
+            std::thread::sleep(std::time::Duration::from_millis(c.hold_ms as u64));
+            if stamp_of(&guard) != held_stamp {
+                v.set_fail("environment_replaced_under_guard", format!("round {round}: the held environment changed its stamp\ncase: {c:?}"));
+            }
+            drop(guard);
+            let stamps: Vec<u64> = handles.into_iter().map(|h| h.join().unwrap()).collect();
+            let after = creations.load(Ordering::SeqCst);
+            let allowed = if c.requests > 0 { 1 } else { 0 };
+            if after - before > allowed {
+                v.set_fail(
+                    "creator_called_without_request",
+                    format!("round {round}: {} request(s) were pending and {} threads acquired; the creator ran {} times (stamps handed out: {stamps:?})\ncase: {c:?}", c.requests, c.acquirers, after - before),
+                );
+                return v;
+            }
+            if c.requests > 0 && stamps.iter().any(|s| *s <= held_stamp) {
+                v.set_fail("reload_request_lost_threads", format!("round {round}: after a request an acquirer got stamp {stamps:?}, the environment before the request had {held_stamp}\ncase: {c:?}"));
+                return v;
+            }
+        }
+        v
+    }
+}
+
+crate::declare_parts!(Reloader, ThreadStress, QueuedAcquirers);
 
 pub fn run(ctx: &mut Ctx) {
-    ctx.rule = "schedules at the granularity of the reloader's lock acquisitions: up to 3 acquire_env calls (thorough: 4) with up to 3 request_reload calls placed before the acquire, right after the cache lock, between the reload check and the flag reset, between the reset and the creator, inside the creator (through the notifier handed to it), after the rebuild, before the guard is returned (verif_hooks yield points) and while the returned guard is held, x fast reload on/off x freshness callback absent / false / true-once x creator failing on its second call (by returning an error, or by panicking with the panic contained by the caller: such an acquire - and any later one that refuses to continue - hands out nothing): enumerated completely; proptest samples longer schedules (up to 5 acquires). Oracle: a logical clock; for every request that returned at t, the first successful acquire that started after t returns an environment whose creator started after t (or, with fast reload, whose template cache was cleared, observed as a loader call); while a guard is held the stamp does not change and the creator is not running; without a pending request the creator is not called again. A real-thread stress run (2-4 threads) is a smoke test. Non-trivial: a request at an interior yield point or inside the creator. Distinct by schedule.".into();
+    ctx.rule = "schedules at the granularity of the reloader's lock acquisitions: up to 3 acquire_env calls (thorough: 4) with up to 3 request_reload calls placed before the acquire, right after the cache lock, between the reload check and the flag reset, between the reset and the creator, inside the creator (through the notifier handed to it), after the rebuild, before the guard is returned (verif_hooks yield points) and while the returned guard is held, x fast reload on/off x freshness callback absent / false / true-once x creator failing on its second call (by returning an error, or by panicking with the panic contained by the caller: such an acquire - and any later one that refuses to continue - hands out nothing): enumerated completely; proptest samples longer schedules (up to 5 acquires). Oracle: a logical clock; for every request that returned at t, the first successful acquire that started after t returns an environment whose creator started after t (or, with fast reload, whose template cache was cleared, observed as a loader call); while a guard is held the stamp does not change and the creator is not running; without a pending request the creator is not called again. A real-thread stress run (2-4 threads) is a smoke test; a second real-thread part queues 2-4 acquirers behind a held guard with 0-2 pending requests: at most one rebuild per request, whatever the interleaving. Non-trivial: a request at an interior yield point or inside the creator. Distinct by schedule.".into();
     ctx.assumptions = vec![
         "file-change notifications set the same flag under the same lock as request_reload and are represented by it".into(),
         "interleavings are produced on one thread through the hook callback; the real-thread part only samples".into(),
@@ -477,4 +558,5 @@ pub fn run(ctx: &mut Ctx) {
     ctx.run_enumerated::<Reloader>(enumerate(a, r), true);
     ctx.run_part::<Reloader>(t.pick(20_000, 20_000_000));
     ctx.run_part::<ThreadStress>(t.pick(40, 1_000));
+    ctx.run_part::<QueuedAcquirers>(t.pick(300, 6_000));
 }
